@@ -10,9 +10,12 @@ import (
 	"log"
 	"math/rand"
 	"net/http/httptest"
+	"os"
 	"reflect"
 	"regexp"
+	"runtime"
 	"sort"
+	"strings"
 	"sync"
 	"unsafe"
 
@@ -563,7 +566,56 @@ func decodeRequest(body []byte) (*model.DecisionMaker, error) {
 	return &dm, nil
 }
 
-func decideDM(dm *model.DecisionMaker, tr *trace) (d decision) {
+// decideDM runs one decision under a deadlock detector: no decision of these workloads takes minutes, so when one has not
+// returned after two minutes the runtime is asked what it is doing. Parked inside the library with nothing of the library
+// running = it waits for something that never comes: the worker ends at once with that goroutine's stack (the supervisor
+// re-runs the case alone and reports a reproduced block), instead of sitting out the 20-minute watchdog twice.
+func decideDM(dm *model.DecisionMaker, tr *trace) decision {
+	ch := make(chan decision, 1)
+	go func() { ch <- decideDMInner(dm, tr) }()
+	for {
+		select {
+		case d := <-ch:
+			return d
+		case <-timeAfterMs(120000):
+			if where := parkedInLibrary(); where != "" {
+				fmt.Fprintln(os.Stderr, "harness: a decision is blocked inside the library (its goroutine is parked, nothing of the library is running):\n"+where)
+				os.Exit(3)
+			}
+		}
+	}
+}
+
+// parkedInLibrary: a goroutine inside RealDecisionMaker/lib that has been parked for minutes while none is running there
+func parkedInLibrary() string {
+	buf := make([]byte, 8<<20)
+	buf = buf[:runtime.Stack(buf, true)]
+	parked, busy := "", false
+	re := regexp.MustCompile(`^goroutine \d+ \[([^\],]+)(?:, (\d+) minutes)?`)
+	for _, b := range strings.Split(string(buf), "\n\n") {
+		m := re.FindStringSubmatch(strings.TrimSpace(b))
+		if m == nil || !strings.Contains(b, "RealDecisionMaker/lib/") {
+			continue
+		}
+		switch m[1] {
+		case "running", "runnable", "syscall":
+			busy = true
+		default:
+			if m[2] != "" && parked == "" {
+				parked = b
+				if len(parked) > 1800 {
+					parked = parked[:1800]
+				}
+			}
+		}
+	}
+	if busy {
+		return ""
+	}
+	return parked
+}
+
+func decideDMInner(dm *model.DecisionMaker, tr *trace) (d decision) {
 	d.dm = dm
 	d.Trace = tr
 	defer func() {
